@@ -154,6 +154,18 @@ type countVisitor struct{ n int }
 func (v *countVisitor) Enter(n js.INode) js.IVisitor { v.n++; return v }
 func (v *countVisitor) Exit(n js.INode)              {}
 
+type pruneVisitor struct {
+	r interface{ Intn(int) int }
+}
+
+func (v *pruneVisitor) Enter(n js.INode) js.IVisitor {
+	if v.r.Intn(5) == 0 {
+		return nil
+	}
+	return v
+}
+func (v *pruneVisitor) Exit(n js.INode) {}
+
 // exerciseAST calls every printing/walking/conversion method on a tree; none may panic.
 func exerciseAST(t *fw.T, ast *js.AST, r interface{ Intn(int) int }) {
 	if p := fw.Guard(func() { _ = ast.String() }); p != "" {
@@ -166,6 +178,11 @@ func exerciseAST(t *fw.T, ast *js.AST, r interface{ Intn(int) int }) {
 	}
 	if p := fw.Guard(func() { ast.JS(parse.NewIndenter(io.Discard, r.Intn(9))) }); p != "" {
 		t.Failf("AST.JS(Indenter): %s", p)
+		return
+	}
+	// a visitor that skips subtrees (Enter returns nil): the documented way to prune
+	if p := fw.Guard(func() { js.Walk(&pruneVisitor{r: r}, ast) }); p != "" {
+		t.Failf("js.Walk with a pruning visitor: %s", p)
 		return
 	}
 	v := &countVisitor{}
